@@ -5,13 +5,13 @@ From FB Require Import C01.Model C01.Pool C01.Theory3 C01.Theory4 C01.Theory5.
 
 Definition ex_ch (k : nat) : choice :=
   match k with
-  | 0%nat => {| c_form := FPlain 3; c_fill := 0 |}
-  | 1%nat => {| c_form := FPlain 153; c_fill := 0 |}
-  | 2%nat => {| c_form := FPlain 200; c_fill := 0 |}
-  | 3%nat => {| c_form := FPlain 0; c_fill := 7 |}
-  | 4%nat => {| c_form := FWide 21; c_fill := 7 |}
-  | 5%nat => {| c_form := FPlain 29; c_fill := 7 |}
-  | _ => {| c_form := FPlain 177; c_fill := 0 |}
+  | 0%nat => {| c_form := FPlain 3; c_fill := [] |}
+  | 1%nat => {| c_form := FPlain 153; c_fill := [] |}
+  | 2%nat => {| c_form := FPlain 200; c_fill := [] |}
+  | 3%nat => {| c_form := FPlain 0; c_fill := [7; 7] |}
+  | 4%nat => {| c_form := FWide 21; c_fill := [7; 7] |}
+  | 5%nat => {| c_form := FPlain 29; c_fill := [7; 7] |}
+  | _ => {| c_form := FPlain 177; c_fill := [] |}
   end.
 Definition ex_body : list (ainsn nat) :=
   [Gen 3 []; Gen 153 [OpT 3%nat]; Gen 167 [OpT 0%nat]; TSw 6%nat 1 2 [0%nat; 1%nat]; Gen 21 [OpN 300]; Gen 21 [OpN 3]; Gen 177 []].
